@@ -137,3 +137,65 @@ def same_threshold(ck, P, fns, R="SIB/same-terms-same-threshold"):
                   "%s compare the same combination of %s at different thresholds (%s): one copy of a bounds test was re-derived "
                   "off by one" % (", ".join(names), ", ".join(k for k, _ in key), sorted(kinds)), where(odd[2], line))
     return n
+
+
+def second_level_bits(ck, P, fns, R="PAIR/second-level-bits"):
+    """two-level Huffman lookup: a copy `last` of the first-level entry is kept while the second-level entry is fetched, and
+    the fetch loop ends only when the bit buffer holds the bits of both (`last.bits + here.bits <= bits`).  Every such saved
+    entry (a named local of the table-entry type that is defined as a copy of another one) takes part, with its `bits` field,
+    in an ordering decision that also reads the `bits` of a second entry."""
+    n = 0
+    for f in fns:
+        if f is None:
+            continue
+        _ = (f.live, f.succ, f.debug_branches, f.calls, f.defs)
+        cands = []
+        for idx, l in enumerate(f.locals):
+            if not l.get("name") or not str(l.get("ty", "")).endswith("::Code") or idx <= f.arg_count:
+                continue
+            ds = [d for d in f.defs.get(idx, []) if d[0] in f.live]
+            if len(ds) != 1 or ds[0][1] == "call" or ds[0][2] is None or ds[0][2].get("k") != "use":
+                continue
+            src = ds[0][2]["a"]
+            if src.get("k") == "const" or src.get("p"):
+                continue
+            if not str(f.locals[src["l"]].get("ty", "")).endswith("::Code") or not f.locals[src["l"]].get("name"):
+                continue
+            cands.append(idx)
+        if not cands:
+            continue
+        ck.use_fn(f)
+        f._stop_named = True
+        try:
+            # the saved entry is the base of a second-level index: `last.val + (..)`
+            based = set()
+            for bi, si, lhs, rv, st in f.assignments():
+                if rv.get("k") != "bin" or rv.get("op") not in ADD:
+                    continue
+                for side in ("a", "b"):
+                    e = mir.strip_casts(f.operand_expr(rv[side]))
+                    if e[0] == "f" and e[2] == "val" and e[1][0] in ("v", "p"):
+                        based.add(e[1][1])
+            cands = [c for c in cands if c in based]
+            found = set()
+            for b in sorted(f.live):
+                t = f.blocks[b]["t"]
+                if t["k"] != "switch" or b in f.debug_branches:
+                    continue
+                d = f.operand_expr(t["discr"])
+                owners = set()
+                for x in mir.walk(d):
+                    if x[0] == "f" and x[2] == "bits" and x[1][0] in ("v", "p"):
+                        owners.add(x[1][1])
+                if len(owners) >= 2:
+                    found |= owners
+        finally:
+            f._stop_named = False
+        for i, idx in enumerate(cands):
+            n += 1
+            ck.decide(idx in found, R, "%s:%s#%d" % (f.path.split("::")[-1], f.local_name(idx), i),
+                      "the saved first-level entry's bits are part of the loop's exit test",
+                      "%s keeps a first-level table entry in `%s` but no decision adds its bit count to that of the second-level entry: "
+                      "the second-level fetch loop stops before the bit buffer holds the whole code, and the bits dropped afterwards "
+                      "exceed the bits held" % (f.path, f.local_name(idx)), where(f, f.locals[idx].get("line")))
+    return n
